@@ -45,7 +45,7 @@ check('C19', 'cli',
       'positional.  Known finding F-C19b is reported as KNOWN-FINDING.',
       'DESIGN.md section 4, C19')
 
-ENGINES['llparser'] = ('specs/llparser', ['C01', 'C02', 'C03', 'C04'],
+ENGINES['llparser'] = ('specs/llparser', ['C01', 'C02', 'C03', 'C04', 'C05'],
                        'LLGrammar.tla (A-spec: nullable/FIRST/FOLLOW, LL(1), left recursion, bounded language, derivation '
                        'trees), LLCases.tla (grammar builder), LLJudge.tla / LLEval.tla (observation judges); '
                        'drivers harness/drivers/ll.py, c01.py, c02.py, c03.py')
@@ -244,6 +244,21 @@ check('C04', 'llparser',
       'Trusted: TLC. Token patterns restricted to the class-run family plus quoted string and one span token; the '
       'value of span tokens and the column of LexicalError are not judged.',
       'DESIGN.md section 4, C04')
+
+check('C05', 'llparser',
+      'TLA+ spec of the data language of the templates (Render: token streams under every option set, Denote: the '
+      'value the cleaned result must have); TLC-enumerated (options, rendering, expected value) cases parsed by real '
+      'parsers built from ListProds / MapProds / ProdSequence',
+      'All data of depth 1 and width 2 (thorough: width 3, and depth 2) over atoms, empty items, lists and maps with '
+      'repeated keys x 40 option sets (delimiter or none, allow_final_delimiter default/yes/no, nullable items, map '
+      'final delimiter) x 5 grammar shapes (value, optional containers after a word, bracket-less top list, optional '
+      'list after every atom, declarations list) x with / without / forbidden final delimiter; each rendered 4 times '
+      'with seeded whitespace, newlines and comments between tokens and with 4 orders of the productions dict.  The '
+      'cleaned value must equal Denote (wrapper nodes the generic cleanup keeps are ignored), forbidden final '
+      'delimiters must raise ParsingError, sequences of terminals must come back in order.',
+      'Trusted: TLC. Lists whose last item is empty are not generated (inherent ambiguity with the final delimiter). '
+      'Known finding F-C05 (templates nested in a sequence) is reported as KNOWN-FINDING.',
+      'DESIGN.md section 4, C05')
 
 ALL = ['C%02d' % i for i in range(1, 21)]
 
